@@ -12,13 +12,13 @@ META = {
             "the buffer packed by rank (p-k) mod P and visits every other rank once; for every P, every pair of decompositions, "
             "ignorePublic, includeSelf, ring mode or admissible neighbour hints and EVERY order of arrival the map built by rank p is "
             "the set-comprehension spec (send = own source x remote target, receive = own target x remote source, ascending, ranks "
-            "sharing nothing absent, self entry as documented), hence independent of the arrival order; isSynced is false exactly "
+            "sharing nothing absent, self entry as documented), hence independent of the arrival order; under a small-step semantics of the blocking calls every execution of the ring (all P >= 2, any interleaving) and of the neighbour mode (consistent hints, any probe order) terminates in the final configuration with exactly these data; isSynced is false exactly "
             "when a resize completed since the last build and a rebuild re-establishes the spec.  The model is tied to "
             "dune/common/parallel/remoteindices.hh on every run by running extracted model, extracted spec and the real class under "
             "mpirun on identical generated decompositions, each with global index type int and with one of long / unsigned long long / "
             "bigunsignedint<55|64|100> (values using the most significant digit).",
     "note": "Trusted: Coq kernel, extraction, OCaml driver, C++ MPI harness, OpenMPI (matching, non-overtaking, MPI_Pack of the struct "
-            "datatype, Ssend/Recv rendezvous: the ring's deadlock freedom is argued, not proved), std::map; mixed one/two-set "
+            "datatype; the small-step semantics of Ssend/Recv rendezvous and of Issend/Probe(ANY_SOURCE)/Recv/Waitall used by C04_ring_no_deadlock and C04_neighbour_mode_terminates is a model of MPI), std::map; mixed one/two-set "
             "configurations are outside the property (model returns MIXED); seqNo int overflow not modelled.",
     "design_ref": "DESIGN.md section 4 C04",
 }
